@@ -71,6 +71,22 @@ def run(ctx) -> None:
     from .common import descriptor_binding
     descriptor_binding(ctx, "R10.7", ("_lrucache",))
     r10_8(ctx, classes)
+    from .common import keywords_cannot_collide
+    ctx.rule("R10.9", "every argument pattern the function accepts is accepted by its cached wrapper: __call__ and cache_discard "
+                      "(also of the bound wrapper) take nothing but self, positional-only, besides *args / **kwargs - a keyword "
+                      "argument named `self` belongs to the function (functools.lru_cache accepts it)")
+    for lc in classes.values():
+        for mname in ("__call__", "cache_discard"):
+            ctx.count("forwarding_methods")
+            keywords_cannot_collide(ctx, "R10.9", lc.info.methods[mname], "the cached function")
+    for info in ctx.pkg.module("_lrucache").classes.values():
+        if info not in [lc.info for lc in classes.values()]:
+            for mname in ("__call__", "cache_discard"):
+                m = info.methods.get(mname)
+                if m is not None and m.node.args.kwarg is not None:
+                    ctx.count("forwarding_methods")
+                    keywords_cannot_collide(ctx, "R10.9", m, "the cached function")
+    ctx.floor("forwarding_methods", 6)
     ctx.floor("descriptors", 2)
     ctx.floor("wrapper_classes", 3)
     ctx.floor("maxsize_classes", 6)
